@@ -353,10 +353,22 @@ func symBinop(op token.Token, t types.Type, x, y value) value {
 		xt, yt := strTerm(x), strTerm(y)
 		switch op {
 		case token.ADD:
+			if !xIsAtom && !yIsAtom {
+				return joinPieces([]piece{toPiece(x), toPiece(y)})
+			}
 			return symStr{"(str.++ " + xt + " " + yt + ")"}
 		case token.EQL:
+			if r, ok := unifyEq(x, y); ok {
+				return r
+			}
 			return mkBool("(= " + xt + " " + yt + ")")
 		case token.NEQ:
+			if r, ok := unifyEq(x, y); ok {
+				if b, isB := r.(bool); isB {
+					return !b
+				}
+				return mkBool(sNot(r.(symBool).t))
+			}
 			return mkBool("(not (= " + xt + " " + yt + "))")
 		case token.LSS:
 			return mkBool("(str.< " + xt + " " + yt + ")")
